@@ -95,6 +95,10 @@ def render(boundary, nl, parts, pre=None, epi=b"", first_pad=b"", close_pad=b"",
             cd = b"content-disposition:" + cd.replace(b"; ", b";" + nl + b"\t")
         elif st == 2:  # Content-Disposition after the other headers, padded with white space
             cd = b"Content-Disposition :  " + cd + b" "
+        elif st == 3:  # the header block starts with white space
+            cd = b" \tContent-Disposition: " + cd
+        elif st == 4:
+            cd = b"\x0bContent-Disposition: " + cd
         else:
             cd = b"Content-Disposition: " + cd
         lines = [h.replace(b"%NL%", nl) for h in hdrs]
@@ -120,7 +124,7 @@ def rand_parts(rng, boundary, nl, maxparts=4):
         if nl != b"\r\n":
             hdrs = [h for h in hdrs]
         payload = rand_payload(rng, boundary, nl)
-        parts.append((name, fn, hdrs, payload, rng.random() < 0.5, rng.choice([0, 0, 0, 1, 2])))
+        parts.append((name, fn, hdrs, payload, rng.random() < 0.5, rng.choice([0, 0, 0, 1, 2, 3, 4])))
     return parts
 
 
